@@ -487,6 +487,7 @@ type Contract struct {
 	Ghost    []*Clause // ghost statements: "ghost at <point>: name := expr"
 	Calls    []*Clause // "call <callee>#k requires <expr>" obligations at call sites
 	Asserts  []*Clause
+	Preserves []*Clause // closures: `preserves e` - e over captured variables, assumed on entry, proved on exit, kept across library calls that call the closure back
 	Opts     map[string]string
 	File     string
 	Line     int
@@ -571,7 +572,7 @@ type Specs struct {
 }
 
 var clauseKeywords = map[string]bool{"assumes": true, "requires": true, "ensures": true, "modifies": true, "safety": true, "loop": true,
-	"returns": true, "panics": true, "ghost": true, "call": true, "serves": true, "inline": true, "assert": true, "opt": true}
+	"returns": true, "panics": true, "ghost": true, "call": true, "serves": true, "inline": true, "assert": true, "opt": true, "preserves": true}
 
 // parseSpecText parses the //@ lines of one file.
 func (sp *Specs) parseSpecText(pkg, file, text string) {
@@ -802,6 +803,8 @@ func (sp *Specs) parseSpecText(pkg, file, text string) {
 					c.Panics = append(c.Panics, cl)
 				case "assert":
 					c.Asserts = append(c.Asserts, cl)
+				case "preserves":
+					c.Preserves = append(c.Preserves, cl)
 				}
 			}}
 		}
@@ -817,6 +820,8 @@ func (sp *Specs) parseSpecText(pkg, file, text string) {
 			mk("assumes", "")
 		case "assert":
 			mk("assert", "")
+		case "preserves":
+			mk("preserves", "")
 		case "panics":
 			rest = strings.TrimSpace(strings.TrimPrefix(rest, "when"))
 			mk("panics", "")
